@@ -164,6 +164,26 @@ pub fn cases(tier: Tier) -> Vec<GCase> {
             }
         }
     }
+    // non-initial states: an operand was range-checked before (to a width that holds or
+    // not), or the component was already applied to the same witnesses
+    for p in pair_counts(tier) {
+        for (a, b) in [(fe(0xb5), fe(0x1f3)), (neg1(), fe(0xb5))] {
+            for xor in [false, true] {
+                let spec = m5::logic(&a, &b, 2 * p, xor);
+                for w in [8usize, 2 * p, 252] {
+                    let e = if m5::in_range(&a, w) { Expect::Sat(vec![spec]) } else { Expect::Unsat };
+                    let mut c = GCase::new(gadget(xor, p, a, b).with_prelude(&format!("range{}(a)", w), move |c, ins| { dispatch::range_bits(c, ins[0], w); Ok(()) }), e, &format!("logic/{}/with-history", if xor { "xor" } else { "and" }));
+                    c.dev_stride = if p <= 2 { 1 } else { 0 };
+                    c.confirm = p <= 3 || p == 127;
+                    out.push(c);
+                }
+                let base = GCase::new(gadget(xor, p, a, b), Expect::Sat(vec![spec]), &format!("logic/{}", if xor { "xor" } else { "and" }));
+                let mut c = base.after_self_call();
+                c.confirm = p <= 3 || p == 127;
+                out.push(c);
+            }
+        }
+    }
     // aliased operands: op(x, x)
     for p in pair_counts(tier) {
         for x in [fe(0xb5), neg1(), Rho::new(seed, 1399 + p as u64).next_fe()] {
